@@ -32,7 +32,8 @@ type Key struct {
 	Len int    `json:"len"`
 }
 
-// Op is one writer operation: next(key) | write(n) | yield | close.
+// Op is one writer operation: next(key) | write(n) | yield | close.  write(0) is an empty Write
+// call.  Operations that follow close are the writer's calls after Close ("late"): each must fail.
 type Op struct {
 	Op  string `json:"op"`
 	Key *Key   `json:"key,omitempty"`
@@ -53,6 +54,12 @@ type Params struct {
 	InMode  string `json:"in_mode,omitempty"` // "seq" (server style: feed all, then read) | "conc" (unbuffered, reader goroutine) | "conc1"
 	Script  []Op   `json:"script"`
 	Sched   Sched  `json:"sched"`
+	// FeedEmpty: the reassembly side also gets chunks with an empty value: "" (none) | "before"
+	// (one before every chunk, with that chunk's key) | "after" (one after every chunk, same key) |
+	// "both".  The feed is then logged call by call (feed / feedclose events).
+	FeedEmpty string `json:"feed_empty,omitempty"`
+	// BodyRead: size of the buffer the consumer of a reassembled value reads with (0 = io.ReadAll)
+	BodyRead int `json:"body_read,omitempty"`
 }
 
 // ChunkObs is one emitted chunk as the specification sees it.
@@ -193,7 +200,7 @@ func run(p Params, res *Result, emit func(map[string]any), stage *atomic.Value) 
 	if p.Sched.Mode == "writerfirst" || p.Sched.Mode == "readerfirst" {
 		pt.mode = ""
 	}
-	emit(map[string]any{"ev": "reset", "run": p.ID, "mtu": p.MTU, "buffers": p.Buffers})
+	emit(map[string]any{"ev": "reset", "run": p.ID, "mtu": p.MTU, "buffers": p.Buffers, "feed_empty": p.FeedEmpty, "body_read": p.BodyRead})
 	// the writer's script is logged as issued (program order of the producer); errors it sees are
 	// logged after the reads (they are consequences of what the reader did)
 	ops := make([]map[string]any, 0, len(p.Script))
@@ -213,6 +220,11 @@ func run(p Params, res *Result, emit func(map[string]any), stage *atomic.Value) 
 
 	// ---- producer goroutine: the module side -------------------------------------------------
 	var werrs []string
+	type lateT struct {
+		op     string
+		failed bool
+	}
+	var lates []lateT // outcomes of the calls after Close, in program order
 	prodDone := make(chan struct{})
 	writerFinished := make(chan struct{})
 	readerStarted := make(chan struct{})
@@ -231,9 +243,11 @@ func run(p Params, res *Result, emit func(map[string]any), stage *atomic.Value) 
 			time.Sleep(50 * time.Microsecond)
 		}
 		g := 0
+		closed := false
 		for i, op := range p.Script {
 			pt.at("producer")
 			var err error
+			wasClosed := closed
 			switch op.Op {
 			case "next":
 				mod, msg := KeyString(*op.Key)
@@ -253,6 +267,11 @@ func run(p Params, res *Result, emit func(map[string]any), stage *atomic.Value) 
 				err = w.ForceNewMessage()
 			case "close":
 				err = w.Close()
+				closed = true
+			}
+			if wasClosed {
+				lates = append(lates, lateT{op.Op, err != nil})
+				continue
 			}
 			if err != nil {
 				werrs = append(werrs, fmt.Sprintf("%d:%s:%v", i, op.Op, err))
@@ -324,6 +343,12 @@ func run(p Params, res *Result, emit func(map[string]any), stage *atomic.Value) 
 	for _, e := range werrs {
 		emit(map[string]any{"ev": "werr", "msg": e})
 	}
+	for _, l := range lates {
+		emit(map[string]any{"ev": "late", "op": l.op, "failed": l.failed})
+		if !l.failed {
+			werrs = append(werrs, "call after Close succeeded: "+l.op)
+		}
+	}
 	res.WErrs = werrs
 	for _, b := range batches {
 		ob := []ChunkObs{}
@@ -364,7 +389,26 @@ func run(p Params, res *Result, emit func(map[string]any), stage *atomic.Value) 
 				return
 			}
 			pt.at("unchunk")
-			b, err := io.ReadAll(body)
+			var b []byte
+			var err error
+			if p.BodyRead <= 0 {
+				b, err = io.ReadAll(body)
+			} else {
+				// a consumer with a small buffer: every Read may return fewer bytes than asked for,
+				// (0, nil) included; only io.EOF ends the value
+				buf := make([]byte, p.BodyRead)
+				for {
+					n, rerr := body.Read(buf)
+					b = append(b, buf[:n]...)
+					if rerr == io.EOF {
+						break
+					}
+					if rerr != nil {
+						err = rerr
+						break
+					}
+				}
+			}
 			_ = body.Close()
 			asm = append(asm, asmT{key, b, err})
 		}
@@ -374,24 +418,51 @@ func run(p Params, res *Result, emit func(map[string]any), stage *atomic.Value) 
 		go func() { defer close(rdDone); readAll() }()
 	}
 	nfed, feedErr := 0, ""
-	for _, b := range batches {
-		for _, kv := range b {
-			pt.at("feed")
-			if err := cw.WriteChunk(kv); err != nil && feedErr == "" {
-				feedErr = err.Error()
+	perCall := p.FeedEmpty != ""
+	feedOne := func(kv *serviceinfo.KV) {
+		pt.at("feed")
+		err := cw.WriteChunk(kv)
+		if err != nil && feedErr == "" {
+			feedErr = err.Error()
+		}
+		if perCall {
+			e := map[string]any{"ev": "feed", "key": keyJSON(KeyOf(kv.Key)), "n": len(kv.Val)}
+			if err != nil {
+				e["err"] = err.Error()
 			}
-			nfed++
+			emit(e)
 		}
 	}
-	if err := cw.Close(); err != nil && feedErr == "" {
-		feedErr = err.Error()
+	for _, b := range batches {
+		for _, kv := range b {
+			if p.FeedEmpty == "before" || p.FeedEmpty == "both" {
+				feedOne(&serviceinfo.KV{Key: kv.Key, Val: []byte{}})
+			}
+			feedOne(kv)
+			nfed++
+			if p.FeedEmpty == "after" || p.FeedEmpty == "both" {
+				feedOne(&serviceinfo.KV{Key: kv.Key, Val: []byte{}})
+			}
+		}
 	}
-	// every chunk, in the order read, was given to WriteChunk, then Close
-	fe := map[string]any{"ev": "feeds", "count": nfed}
-	if feedErr != "" {
-		fe["err"] = feedErr
+	cerr := cw.Close()
+	if cerr != nil && feedErr == "" {
+		feedErr = cerr.Error()
 	}
-	emit(fe)
+	if perCall {
+		e := map[string]any{"ev": "feedclose"}
+		if cerr != nil {
+			e["err"] = cerr.Error()
+		}
+		emit(e)
+	} else {
+		// every chunk, in the order read, was given to WriteChunk, then Close
+		fe := map[string]any{"ev": "feeds", "count": nfed}
+		if feedErr != "" {
+			fe["err"] = feedErr
+		}
+		emit(fe)
+	}
 	if conc {
 		<-rdDone
 	} else {
